@@ -320,6 +320,8 @@ func checkC19(c *Ctx) (string, error) {
 	c.Rule("R19.2", "pyCall: 0 arguments -> CallNoArgs, 1 non-variadic -> CallOneArg, otherwise CallFunctionObjArgs with the arguments in order and a terminating NULL", 3)
 	c.Rule("R19.3", "module objects: imported once under a nil test before first use; the interpreter is started before any initialiser; symbol binding is emitted after all bodies are compiled", 4)
 	c.Rule("R19.4", "shared type objects are never modified through a value (no assignment to the type fields of an Expr)", 1)
+	checkC19b(c, sp)
+	checkPyCalleeSource(c, cp)
 
 	pv := findFunc(sp, "Builder.PyVal")
 	if pv == nil {
